@@ -31,6 +31,20 @@ Proof.
 Qed.
 Print Assumptions C10_complex_center_crop_is_center.
 
+(* ... and a crop that does not fit is rejected, never answered by an off-centre zero-filled window: the guard regenerated
+   from complex_center_crop raises exactly when a requested size exceeds the data (a difference of -1 included, where
+   truncation towards zero and floor part ways) *)
+Theorem C10_complex_center_crop_rejects_exactly_oversize na nb ma mb :
+  ccc_raises na nb ma mb = true <-> (na < ma \/ nb < mb).
+Proof.
+  pose proof (ccc_guard_spec na nb ma mb) as [H1 H2].
+  destruct (ccc_raises na nb ma mb) eqn:E.
+  - split; [intros _|reflexivity]. destruct (Z_le_gt_dec ma na) as [Ha|Ha]; [|lia]. destruct (Z_le_gt_dec mb nb) as [Hb|Hb]; [|lia].
+    specialize (H2 (conj Ha Hb)). discriminate.
+  - split; [discriminate|]. intros Hor. specialize (H1 eq_refl). lia.
+Qed.
+Print Assumptions C10_complex_center_crop_rejects_exactly_oversize.
+
 (* where pad_tensor puts the data: floor(diff/2) before it on every axis, total = target *)
 Theorem C10_pad_tensor_window2 t0 t1 i0 i1 : 0 <= i0 <= t0 -> 0 <= i1 <= t1 ->
   exists l1 r1 l0 r0, pad_list2 t0 t1 i0 i1 = [l1; r1; l0; r0] /\
